@@ -108,6 +108,24 @@ Definition c13_env_spec_ok (c : c13_env_case) : bool :=
 Definition c13_env_model_ok (c : c13_env_case) : bool :=
   let '(iv, tv, s, obs) := c in model_ok (ka_env iv tv (map dec_env s)) obs.
 
+(* a real BaseClient and a peer that sends surplus PINGRESPs: per ping (u unsolicited PINGRESPs
+   before its PINGREQ, r PINGRESPs after it) *)
+Definition c13_wire_case := (N * N * list (nat * nat) * c13_obs)%type.
+
+(* property: the first ping the peer did not answer decides, surplus PINGRESPs or not *)
+Definition c13_wire_spec_ok (c : c13_wire_case) : bool :=
+  let '(iv, tv, urs, obs) := c in
+  let '(r, n) := spec_result (map (fun ur => match snd ur with O => Never | _ => Answered 0 end) urs) in
+  impl_res_eqb (io_res obs) (expect r) && Nat.eqb (length (io_starts obs)) n
+  && ticks_ok iv (io_starts obs) && elapsed_ok iv tv r n (io_elapsed obs).
+
+(* model: the PINGRESP slot machine decides which pings are answered *)
+Definition c13_wire_model_ok (c : c13_wire_case) : bool :=
+  let '(iv, tv, urs, obs) := c in model_ok (keepalive iv tv (wire_outcomes urs)) obs.
+
+Definition c13_wire_violations (cs : list c13_wire_case) := indices_where (fun c => negb (c13_wire_spec_ok c)) cs.
+Definition c13_wire_mismatches (cs : list c13_wire_case) := indices_where (fun c => negb (c13_wire_model_ok c)) cs.
+
 Definition c13_out_violations (cs : list c13_out_case) := indices_where (fun c => negb (c13_out_spec_ok c)) cs.
 Definition c13_out_mismatches (cs : list c13_out_case) := indices_where (fun c => negb (c13_out_model_ok c)) cs.
 Definition c13_env_violations (cs : list c13_env_case) := indices_where (fun c => negb (c13_env_spec_ok c)) cs.
@@ -144,8 +162,10 @@ Definition c13_pace_mismatches (cs : list c13_pace_case) := indices_where (fun c
 
 (* ---------- the reconnecting client against a scripted broker ---------- *)
 Inductive sys_case :=
-(* the broker answers k pings of a connection, then stays silent (still accepting writes) *)
-| SysSilent (I T : N) (k : nat)
+(* the broker answers k pings of a connection, then stays silent (still accepting writes);
+   cc = Some m: the caller cancels the context it passed to Connect once m pings were seen
+   (0: right after Connect returned) *)
+| SysSilent (I T : N) (k : nat) (cc : option nat)
     (pings : nat)            (* PINGREQs seen on that connection *)
     (closed redialed connected : bool)  (* client closed that transport / dialled again / sent a fresh CONNECT *)
     (err : impl_res)         (* Err() of that connection's BaseClient *)
@@ -170,7 +190,7 @@ Definition err_expect (e : option ka_err) : impl_res :=
 (* property, directly on the observation *)
 Definition sys_spec_ok (c : sys_case) : bool :=
   match c with
-  | SysSilent iv tv k pings closed redialed connected err gap =>
+  | SysSilent iv tv k cc pings closed redialed connected err gap =>
       closed && redialed && connected && impl_res_eqb err (IErr true false false None) && (tv <=? gap)
       && Nat.leb (S k) pings
   | SysHealthy iv tv pings elapsed dials closes err err_after =>
@@ -185,8 +205,8 @@ Definition sys_spec_ok (c : sys_case) : bool :=
 (* model: the connection's keep-alive run + the goroutine's reaction + the loop's reaction *)
 Definition sys_model_ok (c : sys_case) : bool :=
   match c with
-  | SysSilent iv tv k pings closed redialed connected err gap =>
-      match rc_keepalive iv tv (zeros k ++ [Never]) with
+  | SysSilent iv tv k cc pings closed redialed connected err gap =>
+      match rc_conn_keepalive iv tv (fun j => match cc with Some m => if Nat.leb m j then Some Canceled else None | None => None end) (zeros k ++ [Never]) with
       | None => false
       | Some o =>
           let st := ka_react 1 o false false st_fresh in
